@@ -43,6 +43,10 @@ pub struct AllocM {
     pub created_by: u8,
     /// elements have an observable destructor (false for Copy shapes)
     pub elems_tracked: bool,
+    /// payload offset confirmed by an observation through a dereferenceable handle
+    pub off_seen: bool,
+    /// last observed raw contents of never-written slots of an uninitialised allocation
+    pub observed: Vec<Option<u32>>,
 }
 
 #[derive(Default)]
